@@ -40,7 +40,50 @@ def fold_string(e, resolve=None):
         r = resolve(e)
         if r is not None:
             return r
+    if k == 'call' and PROG is not None:
+        # a formatting helper: `return <template over its parameters>` or an ostringstream that prints one parameter
+        fs = [f for f in PROG.resolve(e) if f.body]
+        if len(fs) == 1 and len(fs[0].params) == len(SX.real_args(e)):
+            h = fs[0]
+            amap = {p['name']: SX.show(a) for p, a in zip(h.params, SX.real_args(e))}
+            st = h.body['body'] if h.body.get('k') == 'block' else [h.body]
+            if len(st) == 1 and st[0]['k'] == 'return':
+                inner = fold_string(st[0]['e'], None)
+                return [(x[0], amap.get(x[1], x[1])) + tuple(x[2:]) if isinstance(x, tuple) else x for x in inner]
+            fmt = _stream_format(h)
+            if fmt is not None:
+                return [('numfmt', amap.get(fmt[0], fmt[0]), fmt[1])]
     raise ValueError('not a string template: ' + SX.show(e)[:60])
+
+
+PROG = None
+
+
+def _stream_format(h):
+    """helper of the form  std::ostringstream os; os << [manipulators] << param; return os.str();  →  (param name, format) with
+    format = ('fixed'|'scientific'|'general', precision or None)"""
+    st = h.body['body'] if h.body.get('k') == 'block' else [h.body]
+    streams = [v for s_ in st if s_['k'] == 'decls' for v in s_['d'] if 'ostringstream' in (v.get('type') or '')]
+    if len(streams) != 1:
+        return None
+    rets = [s_ for s_ in st if s_['k'] == 'return']
+    if len(rets) != 1 or 'str()' not in SX.show(rets[0].get('e')).replace(' ', ''):
+        return None
+    mode, prec, data = 'general', None, []
+    for s_ in st:
+        if s_['k'] != 'expr':
+            continue
+        for n in SX.walk(s_['e']):
+            if n['k'] == 'call' and SX.short(n.get('callee', '')) == 'setprecision':
+                a = SX.strip(SX.real_args(n)[0])
+                prec = a.get('v') if a.get('k') == 'int' else None
+            if n['k'] == 'ref' and n.get('name', '').split('::')[-1] in ('fixed', 'scientific'):
+                mode = n['name'].split('::')[-1]
+            if n['k'] == 'ref' and n.get('kind') == 'param':
+                data.append(n['name'])
+    if len(data) != 1:
+        return None
+    return data[0], (mode, prec)
 
 
 def _merge(parts):
@@ -54,6 +97,8 @@ def _merge(parts):
 
 
 def run(prog, chk):
+    global PROG
+    PROG = prog
     R = Roles(prog)
     chk.rule('R05.1', 'each simulator operation logs exactly one line (logging on) after checks and mutation; only the simulator writes the log')
     chk.rule('R05.2', 'logged text is the OpenQASM 2.0 statement of the method\'s own mnemonic and parameters')
@@ -100,6 +145,14 @@ def run(prog, chk):
         except ValueError as e:
             raise AnalysisBroken('%s: logged text is not a foldable string template: %s' % (f.short, e))
         want = _template(f, sim)
+        # a formatter other than std::to_string is the same placeholder iff it prints fixed notation with at least six decimals
+        bad_fmt = [x for x in parts if isinstance(x, tuple) and x[0] == 'numfmt' and not (x[2][0] == 'fixed' and (x[2][1] or 0) >= 6)]
+        if bad_fmt:
+            chk.ob('R05.2', f, apps[0].ln, False,
+                   '%s prints its angle in %s notation with precision %s; the listing must carry at least the six decimals of std::to_string in fixed notation '
+                   '(significant-digit or scientific output loses decimals for large angles and is not an OpenQASM 2.0 real for small ones)' % (f.short, bad_fmt[0][2][0], bad_fmt[0][2][1]),
+                   key='template-format:' + f.short)
+        parts = [('num', x[1]) if isinstance(x, tuple) and x[0] == 'numfmt' else x for x in parts]
         chk.ob('R05.2', f, apps[0].ln, parts == want, '%s logs %s; OpenQASM statement is %s' % (f.short, _render(parts), _render(want)), key='template:' + f.short)
     # who writes the log
     writers = set()
